@@ -9,10 +9,12 @@ import (
 	"fmt"
 	"net/http"
 	"net/url"
+	"sort"
 	"strings"
 
 	"cuelabs.dev/go/oci/ociregistry"
 	"cuelabs.dev/go/oci/ociregistry/ocimem"
+	"cuelabs.dev/go/oci/ociregistry/ociserver"
 	"cuelabs.dev/go/oci/ociregistry/ociunify"
 
 	"verifsim/core"
@@ -57,6 +59,7 @@ func init() {
 		kind := kind
 		register(&core.Scenario{Name: "c04-overtaken-writer-" + kind, Property: "C04", Weight: 1, Run: func(env *core.Env) { c04overtaken(env, kind) }})
 	}
+	register(&core.Scenario{Name: "c04-concurrent-patches", Property: "C04", Weight: 2, Bubble: true, LeakIsViolation: true, Run: c04concurrentPatches})
 	register(&core.Scenario{Name: "c04-unify-member-loses-write", Property: "C04", Weight: 2, Bubble: true, LeakIsViolation: true, Run: func(env *core.Env) { c04(env, "unify-memberfault", false) }})
 }
 
@@ -85,21 +88,21 @@ func rawUploadID(id string) string {
 }
 
 type c04run struct {
-	env     *core.Env
-	ctx     context.Context
-	st      *stack
-	repo    string
-	hint    int
-	content []byte
-	w       ociregistry.BlobWriter
-	id      string
+	env         *core.Env
+	ctx         context.Context
+	st          *stack
+	repo        string
+	hint        int
+	content     []byte
+	w           ociregistry.BlobWriter
+	id          string
 	memberFault bool // a unify member failed a write: the members may disagree on the upload size
 	badWriter   bool // the current writer contains a member writer whose writes fail
 	hint2       int
 	faults      int // faults still allowed
-	fired   bool
-	direct  bool
-	calls   int // client calls since the last fault (liveness)
+	fired       bool
+	direct      bool
+	calls       int // client calls since the last fault (liveness)
 }
 
 // truth returns the number of bytes the registry holds for the session.
@@ -683,4 +686,103 @@ func c04overtaken(env *core.Env, kind string) {
 	if res.Err != nil || res.ReadErr != nil || !bytes.Equal(res.Data, want) {
 		env.Failf("C04/final/bytes", "after commit the blob reads as %d bytes (err %v / %v), want the %d bytes accepted", len(res.Data), res.Err, res.ReadErr, len(want))
 	}
+}
+
+// c04concurrentPatches: several clients send chunks to one upload at the same time
+// (duplicates of a request, or competing writers), each labelled with the offset its
+// sender believes in. Whatever the interleaving of the server's handlers, the upload
+// must end up as the accepted chunks in offset order, each accepted chunk sitting
+// exactly at the offset it was sent for, and every other chunk refused with 416.
+func c04concurrentPatches(env *core.Env) {
+	c := env.C
+	ctx := context.Background()
+	mem := ocimem.New()
+	handler := ociserver.New(mem, nil)
+	repo := repoNames[c.Int("repo", len(repoNames))]
+	L := []int{1, 3, 17}[c.Int("chunklen", 3)]
+	base := c.Bytes("base", c.Int("basechunks", 3)*L)
+	w0, err := mem.PushBlobChunked(ctx, repo, 0)
+	if err != nil {
+		core.Harnessf("%v", err)
+	}
+	if len(base) > 0 {
+		w0.Write(base)
+	}
+	rawID := w0.ID()
+	id := "/v2/" + repo + "/blobs/uploads/" + base64.RawURLEncoding.EncodeToString([]byte(rawID))
+	ntasks := c.Range("ntasks", 2, 4)
+	type sent struct {
+		off    int64
+		data   []byte
+		err    error
+		viaPUT bool
+	}
+	plans := make([]*sent, ntasks)
+	for t := range plans {
+		// offsets around the current end, so that some collide and some are stale or premature
+		off := int64(len(base)) + int64(c.Int("offset.chunks", 3)*L)
+		if c.Bool("offset.stale", 1, 6) && len(base) > 0 {
+			off = int64(len(base)) - int64(L)
+		}
+		data := bytes.Repeat([]byte{byte('A' + t)}, L)
+		plans[t] = &sent{off: off, data: data}
+	}
+	sched := env.Sched
+	for t := 0; t < ntasks; t++ {
+		t := t
+		sched.Spawn(fmt.Sprintf("client%d", t), func() {
+			tr := &simnet.Transport{Env: env, Handler: handler}
+			cl, err := newClient(tr, 0)
+			if err != nil {
+				core.Harnessf("%v", err)
+			}
+			p := plans[t]
+			w, err := cl.PushBlobChunkedResume(ctx, repo, id, p.off, 0)
+			if err != nil {
+				p.err = err
+				return
+			}
+			sched.Yield()
+			if _, err := w.Write(p.data); err != nil {
+				p.err = err
+				return
+			}
+			p.err = w.Close()
+		})
+	}
+	env.Finally(func() {
+		var accepted []*sent
+		for t, p := range plans {
+			env.Op(fmt.Sprintf("patch@%d:%v", (p.off-int64(len(base)))/int64(L), p.err == nil))
+			env.Logf("client %d: %d bytes %q at offset %d -> %v", t, len(p.data), p.data[:1], p.off, p.err)
+			env.Sample("client %d: chunk at offset %d (upload held %d) -> %v", t, p.off, len(base), p.err)
+			if p.err == nil {
+				accepted = append(accepted, p)
+			} else if !errors.Is(p.err, ociregistry.ErrRangeInvalid) {
+				env.Failf("C04/concurrent/wrong-error", "a chunk sent at offset %d was refused with %s, want RANGE_INVALID: %v", p.off, reg.CodeOf(p.err), p.err)
+			}
+		}
+		sort.Slice(accepted, func(i, j int) bool { return accepted[i].off < accepted[j].off })
+		want := append([]byte{}, base...)
+		for i, p := range accepted {
+			if p.off != int64(len(base))+int64(i*L) {
+				var offs []int64
+				for _, q := range accepted {
+					offs = append(offs, q.off)
+				}
+				env.Failf("C04/concurrent/accepted-at-wrong-offset", "the upload held %d bytes; chunks of %d bytes sent at offsets %v were all accepted: the one at %d cannot have been at the end of the upload when it was taken", len(base), L, offs, p.off)
+			}
+			want = append(want, p.data...)
+		}
+		w, err := mem.PushBlobChunkedResume(ctx, repo, rawID, -1, 0)
+		if err != nil {
+			core.Harnessf("%v", err)
+		}
+		if w.Size() != int64(len(want)) {
+			env.Failf("C04/concurrent/size", "%d chunk(s) were accepted on top of %d bytes but the upload now holds %d bytes, want %d", len(accepted), len(base), w.Size(), len(want))
+		}
+		if _, err := w.Commit(reg.Sha256(want)); err != nil {
+			env.Failf("C04/concurrent/content", "the upload does not hold the accepted chunks in offset order: commit with their digest failed: %v", err)
+		}
+	})
 }
